@@ -157,6 +157,12 @@ def _run_job(job):
                                 known=getattr(o, 'known', None), note=getattr(o, 'note', None),
                                 meta={k: v for k, v in o.meta.items() if k in ('exception', 'trig')},
                                 is_real=(o.goal is not None or o.status in ('undecided', 'error'))))
+    used = set()
+    for o in obls:
+        c = o.meta.get('ctx')
+        if c is not None:
+            used |= set(c.ghost.get('lemmas_used', ()))
+    out['lemmas_used'] = sorted(used)
     out['files'] = sorted(E.I.files_used)
     out['pyx'] = dict(E.I.pyx_reports)
     out['job_s'] = time.time() - _t0
@@ -198,7 +204,7 @@ def main():
             errors.append(f'loading {m}: {type(e).__name__}: {e}')
             traceback.print_exc()
     known = [k for k in load_known() if k.get('property') == prop and not k.get('fixed')]
-    timeout_ms = 45000 if tier == 'quick' else 120000   # wall-clock budgets per rung: sized for a fully loaded 16-core machine
+    timeout_ms = int(os.environ.get('VERIF_TIMEOUT_MS') or (45000 if tier == 'quick' else 120000))     # override: sweeps over seeded changes only   # wall-clock budgets per rung: sized for a fully loaded 16-core machine
     jobs = []
     for ei, e in enumerate(E.registry):
         if prop in e['props']:
@@ -221,16 +227,23 @@ def main():
     known_lines = []
     files_used = set(E.I.files_used)
     pyx_reports = {}
+    lemmas_used = set()
     for r in results:
         errors.extend(r['errors'])
         known_lines.extend(r['known_lines'])
         files_used.update(r['files'])
         pyx_reports.update(r.get('pyx') or {})
+        lemmas_used.update(r.get('lemmas_used') or [])
         key = (r['contract'], r['target'])
         contracts_run[key] = contracts_run.get(key, 0) + len(r['obls'])
         for d in r['obls']:
             obls.append(Res(d))
     contracts_run = [(c, t, n) for (c, t), n in contracts_run.items()]
+    # a lemma whose conclusion was used as a fact must be a contract of this very run (it is then proved, or fails, here)
+    ran = {c for c, _, _ in contracts_run}
+    for nm in sorted(lemmas_used):
+        if nm not in ran:
+            errors.append(f'lemma {nm} is used as a fact but is not proved in the run for {prop} (add {prop} to its props)')
     # ---- bounded stand-ins (run-time contract checks on enumerated inputs; never counted as proved)
     bounded = []
     bviol = []
@@ -317,6 +330,7 @@ def main():
             'known_findings': sorted({getattr(o, 'known') for o in obls if getattr(o, 'known', None)}),
             'source_sha256_16': files,
             'pyx_extraction': pyx_info,
+            'lemmas_applied_modularly': sorted(lemmas_used),
             'vacuity': {'contracts_with_feasible_path': len(contracts_run) - sum(1 for o in errs if o.name == 'cover')},
         },
         'assumptions': info.get('assumptions', []),
